@@ -51,8 +51,8 @@ def _verify_identify_inputs(
     node_1_id = Node.identifier_from(node_1)
     node_2_id = Node.identifier_from(node_2) if node_2 is not None else ''
 
-    # Ensure node_1 != node_2
-    if node_1_id == node_2_id or node_1 == node_2:
+    # Ensure node_1 != node_2 (only when a second node was provided: '' is a valid identifier)
+    if node_2 is not None and (node_1_id == node_2_id or node_1 == node_2):
         raise ValueError('node_1 and node_2 cannot be equal. Please provide different nodes / node identifiers.')
 
     return node_1_id, node_2_id
